@@ -802,7 +802,7 @@ func init() { props["C05"] = runC05 }
 // C05 — concurrent calls are race-free and match sequential runs: a -race build of cmd/vhrace is run on a mixed set of
 // inputs with 1..64 goroutines and three GOMAXPROCS settings; its race reports and result mismatches are violations.
 func runC05(c *Ctx) error {
-	c.Res.Rule = "a -race build of the soak program runs mixed entry points (Decode, DecodeTiff, DecodeJPEG, DecodePng, DecodeCR3, exif2.Parse, imagetype.Scan, both 64-bit hashes) on generated Exif files with time-zone tags (the zone cache is emptied every millisecond through the verif hook, under its write lock, so misses keep happening), jpeg.ScanJPEG directly on plain readers next to the facade decoders, samples and crafted files from G goroutines (G in {4, 16, 64}) x GOMAXPROCS in {1, 2, NumCPU}; every concurrent result must equal its sequential result and the race detector must stay silent. Non-trivial: every call."
+	c.Res.Rule = "a -race build of the soak program runs mixed entry points (Decode, DecodeTiff, DecodeJPEG, DecodePng, DecodeCR3, DecodeHeif, exif2.Parse, imagetype.Scan, both 64-bit hashes, the blur hash; the first calls of the process are concurrent: cold start) on generated Exif files with time-zone tags (the zone cache is emptied every millisecond through the verif hook, under its write lock, so misses keep happening), jpeg.ScanJPEG and isobmff.NewReader / ReadFTYP / ReadMetadata directly on plain readers next to the facade decoders, samples and crafted files from G goroutines (G in {4, 16, 64}) x GOMAXPROCS in {1, 2, NumCPU}; every concurrent result must equal its sequential result and the race detector must stay silent. Non-trivial: every call."
 	dir, err := os.MkdirTemp("", "vhrace")
 	if err != nil {
 		return err
@@ -832,9 +832,15 @@ func runC05(c *Ctx) error {
 		es := entriesFor(in, c)
 		for _, e := range es {
 			switch e {
-			case "Decode", "DecodeTiff", "DecodeJPEG", "DecodePng", "DecodeCR3", "Parse", "ItScan", "ScanJPEG":
+			case "Decode", "DecodeTiff", "DecodeJPEG", "DecodePng", "DecodeCR3", "DecodeHeif", "Parse", "ItScan", "ScanJPEG":
 				lines = append(lines, e+" "+hexs(d))
 			}
+			if e == "DecodeCR3" || e == "DecodeHeif" {
+				lines = append(lines, "Bmff "+hexs(d))
+			}
+		}
+		if c.Rng.Intn(6) == 0 {
+			lines = append(lines, "Blur "+hexs(d[:1+c.Rng.Intn(len(d))]))
 		}
 		if c.Rng.Intn(4) == 0 {
 			lines = append(lines, "Hash "+hexs(d[:1+c.Rng.Intn(len(d))]))
